@@ -91,6 +91,7 @@ func Run(c *hx.Ctx) error {
 		}
 		return nil
 	}
+	c.Stats.Rule = "a history counts as non-trivial when at least one query ran while a flush was stopped between switch and dropSnapshot, and in addition a write was acknowledged while a flush was stopped or a query ran while a compaction / out-of-order merge was stopped at one of its file-system mutations"
 	r := hx.NewRng(c.Seed)
 	n := c.Budget(30, 400)
 	for i := 0; i < n; i++ {
